@@ -1525,3 +1525,22 @@ ref("extract-close-helper", ["C02", "C08"], "the two child-side closes after dup
 }
 
 fn try_run_builtin_in_subprocess('''))
+
+ref("word-start-nested-quote-if", ["C20", "C05"], "escaped_word_start: the quote open / close chain written as nested ifs",
+    ("src/completers/mod.rs", """        if !with_quote && !found_bs && (c == '"' || c == '\\'') {
+            with_quote = true;
+            ch_quote = c;
+        } else if with_quote && !found_bs && ch_quote == c {
+            with_quote = false;
+        }
+""", """        if !found_bs {
+            if with_quote {
+                if ch_quote == c {
+                    with_quote = false;
+                }
+            } else if c == '"' || c == '\\'' {
+                ch_quote = c;
+                with_quote = true;
+            }
+        }
+"""))
